@@ -118,7 +118,10 @@ fn build(r: &mut Rng, variant: u64) -> W16 {
     let router = inc.core.router.clone();
     let _ = exec(&mut inc.app, &owner, &router, &rm::ExecuteMsg::AddSwapRoutes { swap_routes: vec![route] }, &[]);
     let mut dummy = Acc::new(0);
+    // two flows carrying the same (non-unique) label "promo": the first by user0, a later one by the attacker; a
+    // CloseFlow naming the label resolves to the first one, for which the attacker is nobody
     op_open_flow(&mut dummy, &mut inc, 0, &AssetRef::Native("ureward".into()), 1_000_000_000, None, None, 0);
+    op_open_flow(&mut dummy, &mut inc, 3, &AssetRef::Native("ureward".into()), 1_000_000_005, None, None, 0);
     let flow_creator = inc.users[0].clone();
     let core = inc.core.clone();
     let pair_addr = inc.pair.as_ref().unwrap().addr.clone();
@@ -416,7 +419,12 @@ fn pick_action(w: &W16, r: &mut Rng) -> Action {
         37 | 38 => {
             let flows = w.inc.flows();
             let id = flows.first().map(|f| f.flow_id).unwrap_or(1);
-            mk("incentive.CloseFlow", "ifactory", &w.inc.incentive, bin(&im::ExecuteMsg::CloseFlow { flow_identifier: im::FlowIdentifier::Id(id) }), vec![w.flow_creator.clone(), w.owners["ifactory"].clone()])
+            let first_is_labelled = flows.first().map(|f| f.flow_label.as_deref() == Some("promo") && f.flow_creator == w.flow_creator).unwrap_or(false);
+            if first_is_labelled && r.chance(1, 2) {
+                mk("incentive.CloseFlow", "ifactory", &w.inc.incentive, bin(&im::ExecuteMsg::CloseFlow { flow_identifier: im::FlowIdentifier::Label("promo".to_string()) }), vec![w.flow_creator.clone(), w.owners["ifactory"].clone()])
+            } else {
+                mk("incentive.CloseFlow", "ifactory", &w.inc.incentive, bin(&im::ExecuteMsg::CloseFlow { flow_identifier: im::FlowIdentifier::Id(id) }), vec![w.flow_creator.clone(), w.owners["ifactory"].clone()])
+            }
         }
         39 => {
             let shape = r.below(2);
@@ -710,8 +718,20 @@ pub fn run(ctx: &Ctx) -> (CheckMeta, Acc) {
             let mut r = Rng::from_parts(&[ctx.seed, ph, sh, h]);
             history(acc, &mut r, sh + 16 * h, steps);
         }
+        // internal callback attempted by the borrower while its own loan is open
+        for h in 0..ctx.scaled(ctx.tier.pick(6, 300)) {
+            let hid = 3_000_000_000 + h;
+            if let Some(rp) = &ctx.replay {
+                if rp.history != hid {
+                    continue;
+                }
+            }
+            acc.history = hid;
+            let mut r = Rng::from_parts(&[ctx.seed, ph, sh, hid]);
+            crate::mon::vaults::forged_callback_probe(acc, &mut r);
+        }
     });
-    let mut obligations: Vec<String> = vec!["check.A1.unauthorised-caller".into(), "check.A2.authorised-caller".into(), "a1.previous-owner-rejected".into(), "a2.new-owner-after-transfer-accepted".into(), "transfer.committed".into(), "check.A3.transfer-applied".into()];
+    let mut obligations: Vec<String> = vec!["check.A1.unauthorised-caller".into(), "check.A2.authorised-caller".into(), "a1.previous-owner-rejected".into(), "a2.new-owner-after-transfer-accepted".into(), "transfer.committed".into(), "check.A3.transfer-applied".into(), "check.A1.forged-callback-inside-a-loan".into(), "rejected-for-unauthorised.vault.Callback.AfterTrade.inside-a-loan".into()];
     for a in [
         "factory.UpdateConfig", "factory.UpdatePairConfig", "factory.UpdateTrioConfig", "factory.CreatePair", "factory.CreateTrio", "factory.AddNativeTokenDecimals", "factory.MigratePair", "factory.MigrateTrio", "factory.RemovePair", "factory.RemoveTrio",
         "pair.UpdateConfig", "trio.UpdateConfig", "router.AddSwapRoutes", "router.RemoveSwapRoutes", "router.ExecuteSwapOperation",
@@ -735,7 +755,7 @@ pub fn run(ctx: &Ctx) -> (CheckMeta, Acc) {
     }
     let meta = CheckMeta {
         level: "exploration",
-        rule: "one world with all 15 contracts (pool factory, pair, trio, router, LP token, vault factory, two vaults, vault router, fee collector, fee distributor, whale lair, incentive factory, incentive, frontend helper, epoch manager). Each step draws one privileged message (44 contract x variant entries, 2-5 payload shapes each: owner / fees / toggles / addresses / code ids / empty) and sends it from the same snapshot as every role: owner of record, every previous owner, deployer, user, attacker, a relay contract driven by the attacker, the target itself, the three factories and six sibling system contracts (exact contract senders). An ownership model, updated only by committed transfers (UpdateConfig{owner}, factory-mediated child transfers, wasm admin moves), names the authorised senders (children: their current owner, self-callbacks: the contract, ForwardFees: the distributor, NextLoan: the registered source vault, CloseFlow: creator or factory owner, Mint: the pool). A1: every other sender is rejected and the chain state is byte-identical; a rejection counts as decided when it is an authorisation error or the authorised sender was accepted in the same state. A2: an authorised sender (notably a new owner after a transfer) is never rejected with an authorisation error. distinct = (message shape, role, authorised, outcome).".to_string(),
+        rule: "one world with all 15 contracts (pool factory, pair, trio, router, LP token, vault factory, two vaults, vault router, fee collector, fee distributor, whale lair, incentive factory, incentive, frontend helper, epoch manager). Each step draws one privileged message (44 contract x variant entries, 2-5 payload shapes each: owner / fees / toggles / addresses / code ids / empty) and sends it from the same snapshot as every role: owner of record, every previous owner, deployer, user, attacker, a relay contract driven by the attacker, the target itself, the three factories and six sibling system contracts (exact contract senders). An ownership model, updated only by committed transfers (UpdateConfig{owner}, factory-mediated child transfers, wasm admin moves), names the authorised senders (children: their current owner, self-callbacks: the contract, ForwardFees: the distributor, NextLoan: the registered source vault, CloseFlow: creator or factory owner, Mint: the pool). A1: every other sender is rejected and the chain state is byte-identical; a rejection counts as decided when it is an authorisation error or the authorised sender was accepted in the same state. A separate probe lets the borrower contract call the vault's AfterTrade callback from inside its own flash loan (plain and swallowed). A2: an authorised sender (notably a new owner after a transfer) is never rejected with an authorisation error. distinct = (message shape, role, authorised, outcome).".to_string(),
         assumptions: vec!["the 'contract itself' and sibling roles are produced by cw-multi-test's ability to execute as any address".into(), "cells where the authorised sender fails for the same non-authorisation reason are counted as undecided, not as held".into()],
         obligations,
     };
